@@ -14,6 +14,11 @@ def run(ctx, replay):
     for cfg in ("Apps_TRUE_0.cfg", "Apps_TRUE_2.cfg"):
         ctx.tlc_mc("Apps", cfg, workers=1, timeout=300)
     outstanding = 0
+    # a hazard of the design as it stands (recorded, outside the listed properties): a writer that gives up at a write
+    # error stops receiving and the entry point never returns
+    r = ctx.tlc_mc("Apps", "Apps_fail.cfg", workers=1, timeout=300, must_hold=False)
+    if r["ok"]:
+        raise vlib.Inconclusive("Apps.tla with a failing write should violate Returns")
     for cfg in ("Apps_FALSE_0.cfg", "Apps_FALSE_2.cfg"):
         r = ctx.tlc_mc("Apps", cfg, workers=1, timeout=300, must_hold=False)
         if r["ok"]:
